@@ -19,6 +19,11 @@ func (m *Message) SkipClassAdRaw(ctx context.Context) error {
 		return fmt.Errorf("failed to read expression count: %w", err)
 	}
 	for i := 0; i < numExprs; i++ {
+		// SkipString succeeds at end of message, so a truncated ad with a large
+		// expression count must be stopped here or the loop spins for the whole count.
+		if m.Finished() {
+			return fmt.Errorf("message ended after %d of %d expressions", i, numExprs)
+		}
 		if err := m.SkipString(ctx); err != nil {
 			return fmt.Errorf("failed to skip expression %d (expected %d): %w", i, numExprs, err)
 		}
